@@ -50,7 +50,7 @@ pub fn probe(r: &mut Runner, _step: &Step) {
         let va = r.w.addrs.vamms[v].clone();
         let w = &r.w;
         // oracle price straight from the feed (the precondition "the oracle has a non-zero price")
-        let feed_price = match w.q(&w.addrs.pricefeed, json!({"get_price": {"key": KEYS[v.min(2)]}})) {
+        let feed_price = match w.q(&w.addrs.pricefeed, json!({"get_price": {"key": KEYS[v.min(3)]}})) {
             Ok(x) => {
                 if x.is_string() {
                     pu(&x)
